@@ -1,12 +1,12 @@
-\* exhaustive, tiny: 2 replicas, 1 transaction each, universe <= 4, behaviours of 6 steps
+\* C10: first contacts and malformed init commands, exhaustive
 SPECIFICATION Spec
 CONSTANTS
   MergeTag = 2
   Reps = {1, 2}
   Txns = {1}
-  MaxCmds = 3
-  MaxSteps = 5
-  Kinds = {"b0", "fin"}
+  MaxCmds = 2
+  MaxSteps = 4
+  Kinds = {"b0"}
   Ops = {"n"}
   MaxBatch = 1
   AllowDup = FALSE
@@ -15,8 +15,9 @@ CONSTANTS
   AllowFail = FALSE
   AllowNoop = TRUE
   BootAll = FALSE
+  MaxRank = 2
   AllRanks = TRUE
-  AllowBad = FALSE
+  AllowBad = TRUE
   PubWeight = 1
   CommitWeight = 1
   SyncWeight = 1
